@@ -70,6 +70,10 @@ type Config struct {
 	Programs   [][]int
 	Workers    int
 	PostCommit func(db *boltz.DbImpl, st *State, rep *report.Report) // optional extra check on each new committed state
+	// SkipRejectedPrefix: do not execute a multi-operation program whose reference model already rejects
+	// a proper prefix - it is the same execution as that shorter program (the transaction function returns
+	// at the first error). Only set this when the single operations are explored on the same state space.
+	SkipRejectedPrefix bool
 	// PerTransition is an optional extra oracle run inside the open transaction after an accepted program.
 	PerTransition func(tx *bbolt.Tx, pre *State, program []int, post *dump.Tree, m Model) error
 	KeepFiles     bool
@@ -396,16 +400,22 @@ func (e *Explorer) expand(s *State) []succ {
 		if e.Cfg.MaxTrans > 0 && atomic.LoadInt64(&e.trans) >= e.Cfg.MaxTrans {
 			break
 		}
-		atomic.AddInt64(&e.trans, 1)
 		m := s.Model.Clone()
 		var classes []string
-		for _, o := range program {
+		rejectedAt := -1
+		for oi, o := range program {
 			classes = e.ops[o].Apply(m)
 			if !(len(classes) == 1 && classes[0] == "ok") {
+				rejectedAt = oi
 				break
 			}
 		}
 		modelOk := len(classes) == 1 && classes[0] == "ok"
+		if e.Cfg.SkipRejectedPrefix && rejectedAt >= 0 && rejectedAt < len(program)-1 {
+			e.Rep.Count("programs_skipped_same_as_rejected_prefix", 1)
+			continue
+		}
+		atomic.AddInt64(&e.trans, 1)
 
 		var post *dump.Tree
 		opErr, obsErr := RunProgram(db, e.Sc.Context(program), e.ops, program, false, func(tx *bbolt.Tx) error {
